@@ -136,6 +136,28 @@ impl Prop for C08 {
         }
         let max_len = if env.tier == Tier::Quick { 6 } else { 10 };
         let mut ops = draw_ops(rng, &cfg, max_len);
+        // a quarter of the histories EDIT the module between emits / queries ("emitting consumes or alters
+        // nothing": the last emit must equal the emit of the same edits made without any emit / query before)
+        let edit_history = !cfg.dwarf && rng.chance(1, 4);
+        if edit_history {
+            ops.clear();
+            let n = rng.range(2, max_len + 2);
+            for _ in 0..n {
+                ops.push(match rng.below(12) {
+                    0..=2 => Op::Emit,
+                    3..=4 => Op::Query,
+                    5 => Op::EmitFile { target: rng.pick(&[FileTarget::Ok, FileTarget::NoSpace, FileTarget::MissingDir]).clone() },
+                    6 => Op::Gc,
+                    7..=8 => Op::Edit(Edit::InsertViaBlockMut { func: rng.u32(), seq: rng.u32(), pos: rng.u32(), n: 1 + rng.below(8) as u32 }),
+                    9 => Op::Edit(Edit::VisitMutPass { func: rng.u32(), what: rng.below(2) as u8 }),
+                    _ => Op::Edit(super::c02::draw_edit(rng)),
+                });
+            }
+            if !ops.iter().any(|o| matches!(o, Op::Edit(_))) {
+                ops.push(Op::Edit(super::c02::draw_edit(rng)));
+            }
+            ops.push(Op::Emit);
+        }
         if cfg.dwarf && synth {
             // the fixpoint clause is not claimed through walrus's own DWARF output (documented as experimental)
             for o in ops.iter_mut() {
@@ -229,6 +251,7 @@ impl Prop for C08 {
             return out;
         };
         out.digest = prng::mix64(t.digest(), prng::fnv(&reference));
+        let first_mutation = case.ops.iter().position(|o| matches!(o, Op::Edit(_) | Op::Gc | Op::CustomAddRaw { .. } | Op::CustomAddTyped { .. } | Op::CustomDelete { .. } | Op::CustomRemoveRaw { .. }));
         let mut emits_on_value = 0u32;
         let mut values = 0u32;
         let mut comparisons = 0u64;
@@ -237,6 +260,15 @@ impl Prop for C08 {
             let op = if i == 0 { None } else { Some(&case.ops[i - 1]) };
             if let Some(o) = op {
                 kinds.push(o.kind());
+            }
+            if matches!(first_mutation, Some(fm) if i > fm) {
+                // the module is no longer the parsed one: the parse-time reference does not apply from here on
+                // (the last emit is compared with the emit-free history below)
+                if matches!(step, StepOut::Panic { .. } | StepOut::Skipped) {
+                    out.hit("history_ended_by_panic");
+                    break 'steps;
+                }
+                continue;
             }
             let which = |emits_on_value: u32, values: u32| {
                 if values > 0 && emits_on_value == 0 {
@@ -301,6 +333,34 @@ impl Prop for C08 {
                     emits_on_value = 0;
                 }
                 StepOut::Query { .. } | StepOut::Ambient | StepOut::Gc | StepOut::Custom { .. } | StepOut::Edit { .. } => {}
+            }
+        }
+        if let (Some(_), None) = (first_mutation, &out.failure) {
+            // "emitting (and querying) alters nothing": the same mutations without any emit / query in between
+            let last_emit = t.steps.iter().rev().find_map(|s| if let StepOut::Emit { bytes } = s { Some(bytes) } else { None });
+            let completed = t.steps.len() == case.ops.len() + 1 && !t.steps.iter().any(|s| matches!(s, StepOut::Panic { .. } | StepOut::Skipped));
+            if let (Some(last), true) = (last_emit, completed) {
+                let mut pure: Vec<Op> = case.ops.iter().filter(|o| !matches!(o, Op::Emit | Op::EmitFile { .. } | Op::Query | Op::Reparse { .. } | Op::BurnArenas { .. } | Op::Unrelated { .. })).cloned().collect();
+                pure.push(Op::Emit);
+                let pr = life::run_ser(env, &input, &case.cfg, &pure, &Ambient { entropy: 0x5eed, arena_burn: 0, heap_pad: 0 }, tag ^ 1);
+                match pr.transcript {
+                    Some(tp) if tp.steps.len() == pure.len() + 1 && !tp.steps.iter().any(|s| matches!(s, StepOut::Panic { .. } | StepOut::Skipped)) => {
+                        if let Some(StepOut::Emit { bytes }) = tp.steps.last() {
+                            comparisons += 1;
+                            out.hit("checked_emit_alters_nothing");
+                            if bytes != last {
+                                out.failure = fail(
+                                    "emit_alters_nothing",
+                                    format!("the last emit of the history differs from the emit of the same mutations made without any emit / query before it: {}", life::bytes_diff(bytes, last)),
+                                );
+                            }
+                        }
+                    }
+                    _ => {
+                        // the emit-free history panicked or stopped where the full one did not (or vice versa)
+                        out.failure = fail("emit_alters_nothing", "the same mutations without the emits / queries in between do not complete, the full history does".to_string());
+                    }
+                }
             }
         }
         out.add("byte_comparisons", comparisons);
